@@ -308,8 +308,8 @@ Proof. induction ks as [|k ks IH]; [reflexivity|]. cbn [flat_map]. rewrite foral
 Definition wf_pub (k : key) : Prop := forall sk, In sk (p_subs k) -> sk_public sk = p_public k.
 Definition kid (k : key) : Z * bool := (p_label k, p_public k).
 
-Notation imp_groups := (import_groups key_or_sig uid_or_sig key_or_uid (fun s => s)).
-Notation imp_group := (import_group key_or_sig uid_or_sig key_or_uid (fun s => s)).
+Notation imp_groups := (import_groups key_or_sig uid_or_sig key_or_uid (fun s => s) upd_cur).
+Notation imp_group := (import_group key_or_sig uid_or_sig key_or_uid (fun s => s) upd_cur).
 
 Lemma keys_set_fresh : forall k ks, (forall x, In x ks -> kid x <> kid k) -> keys_set k ks = ks ++ [k].
 Proof.
@@ -320,60 +320,80 @@ Proof.
   - rewrite IH; auto. intros y Hy. apply H. right. exact Hy.
 Qed.
 
-Lemma upd_last_snoc : forall f ks K K', f K = Ok K' -> upd_last f (ks ++ [K]) = Ok (ks ++ [K']).
+Lemma same_id_kid : forall k, same_id (kid k) k = true.
+Proof. intro k. unfold same_id, kid. simpl. rewrite Z.eqb_refl, eqb_reflx. reflexivity. Qed.
+
+Lemma same_id_other : forall id x, kid x <> id -> same_id id x = false.
 Proof.
-  intros f ks K K' H. unfold upd_last. rewrite rev_app_distr. simpl. rewrite H, rev_involutive. reflexivity.
+  intros [l p] x H. unfold same_id, kid in *. simpl. destruct (p_label x =? l) eqn:E1; auto. destruct (Bool.eqb (p_public x) p) eqn:E2; auto.
+  apply Z.eqb_eq in E1. apply eqb_prop in E2. exfalso. apply H. congruence.
+Qed.
+
+(* the current primary key is the last dictionary entry whenever no earlier entry has its id *)
+Lemma upd_key_snoc : forall f ks K K', (forall x, In x ks -> kid x <> kid K) -> f K = Ok K' ->
+  upd_key (kid K) f (ks ++ [K]) = Ok (ks ++ [K']).
+Proof.
+  intros f ks K K' Hf H. induction ks as [|x r IH]; simpl.
+  - rewrite same_id_kid, H. reflexivity.
+  - rewrite (same_id_other (kid K) x) by (apply Hf; left; reflexivity). rewrite IH; auto. intros y Hy. apply Hf. right. exact Hy.
 Qed.
 
 Lemma map_id_sigs : forall l : list sig, map (fun s => s) l = l.
 Proof. apply map_id. Qed.
 
-Lemma import_uid_groups : forall us gs ks K,
-  imp_groups (map guid us ++ gs) (ks ++ [K])
+Lemma import_uid_groups : forall us gs ks K, (forall x, In x ks -> kid x <> kid K) ->
+  imp_groups (map guid us ++ gs) (ks ++ [K], Some (kid K))
   = imp_groups gs (ks ++ [{| p_label := p_label K; p_public := p_public K; p_sigs := p_sigs K;
                              p_uids := insort_all (uid_lt (p_label K)) (map (fun u => copy_uid (strip_uid u)) us) (p_uids K);
-                             p_subs := p_subs K |}]).
+                             p_subs := p_subs K |}], Some (kid K)).
 Proof.
-  induction us as [|u us IH]; intros gs ks K; simpl.
+  induction us as [|u us IH]; intros gs ks K Hf; simpl.
   - unfold insort_all. simpl. destruct K; reflexivity.
   - rewrite map_id_sigs, sigs_of_export_sigs.
-    erewrite upd_last_snoc by reflexivity.
-    rewrite IH. simpl. reflexivity.
+    erewrite upd_key_snoc by (auto; reflexivity).
+    change (kid K) with (kid (key_or_uid K (fold_left uid_or_sig (strip_sigs (u_sigs u)) {| u_isuid := u_isuid u; u_content := u_content u; u_sigs := [] |}))).
+    rewrite IH by exact Hf. simpl. reflexivity.
 Qed.
 
-Lemma import_sub_groups : forall sks gs ks K,
+Lemma import_sub_groups : forall sks gs ks K, (forall x, In x ks -> kid x <> kid K) ->
   (forall sk, In sk sks -> sk_public sk = p_public K) ->
-  imp_groups (map gsub sks ++ gs) (ks ++ [K])
+  imp_groups (map gsub sks ++ gs) (ks ++ [K], Some (kid K))
   = imp_groups gs (ks ++ [{| p_label := p_label K; p_public := p_public K; p_sigs := p_sigs K; p_uids := p_uids K;
-                             p_subs := fold_left (fun acc sk => sub_set (copy_sub (p_public K) (strip_sub sk)) acc) sks (p_subs K) |}]).
+                             p_subs := fold_left (fun acc sk => sub_set (copy_sub (p_public K) (strip_sub sk)) acc) sks (p_subs K) |}], Some (kid K)).
 Proof.
-  induction sks as [|sk sks IH]; intros gs ks K Hp; simpl.
+  induction sks as [|sk sks IH]; intros gs ks K Hf Hp; simpl.
   - destruct K; reflexivity.
   - rewrite map_id_sigs, sigs_of_export_sigs.
     assert (sk_public sk = p_public K) as E by (apply Hp; left; reflexivity).
-    erewrite upd_last_snoc.
+    erewrite upd_key_snoc; [|exact Hf|].
     2:{ unfold key_or_sub. simpl. rewrite E, eqb_reflx. reflexivity. }
+    match goal with |- imp_groups _ (_ ++ [?K1], _) = _ => change (kid K) with (kid K1) end.
     rewrite IH.
     + simpl. unfold copy_sub, strip_sub. simpl. rewrite tops_map_Top. reflexivity.
+    + exact Hf.
     + intros sk' H'. simpl. apply Hp. right. exact H'.
 Qed.
 
-Lemma import_key_groups : forall k gs ks,
+Lemma import_key_groups : forall k gs ks cur,
   wf_pub k -> (forall x, In x ks -> kid x <> kid k) ->
-  imp_groups (kgroups k ++ gs) ks = imp_groups gs (ks ++ [copy (strip_nonexportable k)]).
+  imp_groups (kgroups k ++ gs) (ks, cur) = imp_groups gs (ks ++ [copy (strip_nonexportable k)], Some (kid k)).
 Proof.
-  intros k gs ks Hw Hf. unfold kgroups. rewrite <- app_comm_cons. simpl.
+  intros k gs ks cur Hw Hf. unfold kgroups. rewrite <- app_comm_cons. simpl.
   rewrite map_id_sigs, sigs_of_export_sigs. rewrite keys_set_fresh by exact Hf.
-  rewrite <- app_assoc. rewrite import_uid_groups. simpl. rewrite import_sub_groups by exact Hw. simpl.
+  rewrite <- app_assoc.
+  match goal with |- imp_groups _ (_ ++ [?K1], _) = _ => change (p_label k, p_public k) with (kid K1) end.
+  rewrite import_uid_groups by exact Hf. simpl.
+  match goal with |- imp_groups _ (_ ++ [?K1], _) = _ => change (kid _) with (kid K1) end.
+  rewrite import_sub_groups; [|exact Hf|exact Hw]. simpl.
   unfold copy, rebuild_as, strip_nonexportable. simpl.
   rewrite tops_map_Top, map_map, fold_left_map. reflexivity.
 Qed.
 
-Lemma import_keys_groups : forall kl ks,
+Lemma import_keys_groups : forall kl ks cur,
   (forall k, In k kl -> wf_pub k) -> NoDup (map kid ks ++ map kid kl) ->
-  imp_groups (flat_map kgroups kl) ks = Ok (ks ++ map (fun k => copy (strip_nonexportable k)) kl).
+  imp_groups (flat_map kgroups kl) (ks, cur) = Ok (ks ++ map (fun k => copy (strip_nonexportable k)) kl).
 Proof.
-  induction kl as [|k kl IH]; intros ks Hw Hnd.
+  induction kl as [|k kl IH]; intros ks cur Hw Hnd.
   - simpl. rewrite app_nil_r. reflexivity.
   - cbn [flat_map map]. rewrite import_key_groups.
     + rewrite IH.
